@@ -626,6 +626,64 @@ def gen_adapters(rng, knobs=None):
     return opts, prog
 
 
+def gen_idwrap(rng, knobs=None):
+    """the id space is reduced to 0..7 or 0..15 (the way the library's own suite does), so that within one connection ids wrap
+    around and are used again: many short interactions of either endpoint, a few long-lived streams that must be skipped,
+    fragmented frames left partially delivered on ids that are then finished and reused"""
+    k = dict(knobs or {})
+    mx = rng.choice([7, 7, 15])
+    opts = {'mode': k.get('mode') or rng.choice(['tcp', 'tcp', 'msg']), 'frag': rng.choice([None, 64, 64]), 'read_buffer': rng.choice([1, 7, 1024]),
+            'max_stream_id': mx}
+    prog = [['start'], ['pump']]
+    refs = 0
+    live = []      # (ref, kind, role-scripted)
+    for _ in range(rng.randint(6, 18)):
+        ep = rng.choice(['c', 'c', 's'])
+        r = rng.random()
+        sp = spec(rng, big=rng.random() < 0.3)
+        if r < 0.35:
+            prog.append(['rr', ep, sp, {'mode': 'immediate', 'resp': spec(rng, big=rng.random() < 0.3)}])
+            refs += 1
+        elif r < 0.5:
+            prog.append(['fnf', ep, sp])
+            refs += 1
+        elif r < 0.75:
+            n = rng.choice([1, 2, 3])
+            prog.append(['stream', ep, sp, rng.choice([5, None]), {'src': 'generator', 'items': items(rng, n), 'complete_on_last': True}, True])
+            refs += 1
+        elif r < 0.9:
+            prog.append(['stream', ep, sp, rng.choice([1, 2, 5]), {'src': 'scripted'}, True])
+            live.append(refs)
+            refs += 1
+        else:
+            prog.append(['rr', ep, sp, {'mode': 'later'}])
+            live.append(refs)
+            refs += 1
+        x = rng.random()
+        if x < 0.7:
+            prog.append(['pump'])
+        elif x < 0.85:
+            prog.append(['deliver', rng.choice(['c', 's']), rng.choice([7, 30, 70, None])])
+        if live and rng.random() < 0.3:
+            ref = live.pop(rng.randrange(len(live)))
+            t = rng.random()
+            if t < 0.4:
+                # a fragmented element is partially delivered when the requester cancels
+                spx = spec(rng, big=True)
+                prog.append(['emit', ref, 'resp', spx[0], spx[1], 0])
+                prog.append(['deliver', rng.choice(['c', 's']), rng.choice([7, 30, 70])])
+                prog.append(['cancel', ref, 'req'])
+            elif t < 0.7:
+                prog.append(['complete', ref, 'resp'])
+            else:
+                prog.append(['fut_cancel', ref])
+            # an id may only be used again once nothing of its previous stream is in flight any more (with 2^30 ids per
+            # endpoint the protocol relies on that; in the reduced id space the scenario has to make sure of it)
+            prog.append(['pump'])
+    prog.append(['finish'])
+    return opts, prog
+
+
 def gen_adapters_mixed(rng, knobs=None):
     """a core-API requester (recorded subscriber, explicit request(n) calls - several grants may pile up before the responder
     runs, or arrive while a batch is being produced) against a handler written with the Rx / ReactiveX adapter: plain observables
